@@ -859,7 +859,7 @@ func (e *Exec) GenOp(r *rand.Rand, p Profile) []string {
 		battery := []string{"schema", "ins " + f.String(), "ins " + g2.String(), "many " + f.String() + " " + g2.String(),
 			fmt.Sprintf("get %d", u), fmt.Sprintf("getu %d", u), fmt.Sprintf("exist %d", u), "count", "all",
 			fmt.Sprintf("search %d %s", nextSid, e.genCmp(r)), fmt.Sprintf("aidx %d", r.Intn(NF)), "commit", "repair",
-			"create", fmt.Sprintf("del %d", u), "delall", "flushall", "flushallc", "control", "close"}
+			"create", fmt.Sprintf("del %d", u), "delall", "flushall", "flushallc", "control", "tick", "tick", "tick", "close"}
 		r.Shuffle(len(battery)-1, func(i, j int) { battery[i], battery[j] = battery[j], battery[i] })
 		out = append(out, battery[:6+r.Intn(len(battery)-6)]...)
 		back := "vopen 1"
